@@ -237,15 +237,26 @@ impl Calendar {
         }
 
         Self::check_year_magnitude(&resolved_fields.era_year)?;
-        let calendar_date = self
-            .0
-            .date_from_codes(
-                self.icu_era(&resolved_fields.era_year),
-                self.icu_year(&resolved_fields.era_year),
-                IcuMonthCode(resolved_fields.month_code.0),
-                resolved_fields.day,
-            )
-            .map_err(TemporalError::from_icu4x)?;
+        let date_with_day = |day: u8| {
+            self.0
+                .date_from_codes(
+                    self.icu_era(&resolved_fields.era_year),
+                    self.icu_year(&resolved_fields.era_year),
+                    IcuMonthCode(resolved_fields.month_code.0),
+                    day,
+                )
+                .map_err(TemporalError::from_icu4x)
+        };
+        let calendar_date = match date_with_day(resolved_fields.day) {
+            Ok(date) => date,
+            // Under constrain a day the month does not have is clamped to the month's length.
+            Err(_) if overflow == ArithmeticOverflow::Constrain => {
+                let first = date_with_day(1)?;
+                let days_in_month = self.0.days_in_month(&first);
+                date_with_day(resolved_fields.day.clamp(1, days_in_month))?
+            }
+            Err(err) => return Err(err),
+        };
         let iso = self.0.date_to_iso(&calendar_date);
         PlainDate::new_with_overflow(
             iso.year().extended_year,
